@@ -12,9 +12,8 @@ def crate_for(repo):
     else:
         h = hashlib.sha256(os.path.abspath(repo).encode()).hexdigest()[:10]
         d = os.path.join(VERIF, 'build', 'replay-' + h)
-        if os.path.isdir(d):
-            shutil.rmtree(d)
-        shutil.copytree(RDIR, d, ignore=shutil.ignore_patterns('target'))
+        # keep an existing target directory (incremental rebuild of the path dependencies), refresh the sources
+        shutil.copytree(RDIR, d, ignore=shutil.ignore_patterns('target', 'Cargo.lock'), dirs_exist_ok=True)
         for fn in ('Cargo.toml',):
             t = open(os.path.join(d, fn)).read().replace('"/repo/', '"%s/' % os.path.abspath(repo))
             open(os.path.join(d, fn), 'w').write(t)
